@@ -29,10 +29,17 @@ func lookupNode[T any](urlTree *URLTree[T], url string) lookupNodeResult[T] {
 	currentNode := urlTree.Root
 	var params map[string]string
 	var foundWildcardNode *Node[T]
+	// the declared pattern and the path parameters of foundWildcardNode: a fallback to it
+	// must report those, not the deeper path walked (and the parameters bound) afterwards
+	var wildcardURLPath string
+	var wildcardParams map[string]string
 	urlPath := ""
 	for _, urlPart := range splitURL {
 		if currentNode.WildcardChild != nil {
 			foundWildcardNode = currentNode.WildcardChild
+			wildcardURLPath = urlPath + getDelimiter(
+				urlPartOf(foundWildcardNode)) + wildcard
+			wildcardParams = copyParams(params)
 		}
 		child, found := currentNode.ConstantChildren[urlPart.Value]
 		if found && child.IsPartOfHost == urlPart.IsPartOfHost {
@@ -74,12 +81,11 @@ func lookupNode[T any](urlTree *URLTree[T], url string) lookupNodeResult[T] {
 
 		if foundWildcardNode != nil {
 			// Didn't find exact value, but found a matching wildcard
-			urlPath = urlPath + getDelimiter(urlPart) + wildcard
 			return buildLookupNodeResult(
 				true,
 				foundWildcardNode,
-				params,
-				urlPath,
+				wildcardParams,
+				wildcardURLPath,
 			)
 		}
 
@@ -93,18 +99,33 @@ func lookupNode[T any](urlTree *URLTree[T], url string) lookupNodeResult[T] {
 	// Exact value not found, check if node has wildcard child
 	if currentNode.WildcardChild != nil {
 		// the match is the wildcard pattern, not the exact URL: report it as such
-		wildcardPart := urlPart{IsPartOfHost: currentNode.WildcardChild.IsPartOfHost}
 		return buildLookupNodeResult(
 			true, currentNode.WildcardChild, params,
-			urlPath+getDelimiter(wildcardPart)+wildcard)
+			urlPath+getDelimiter(urlPartOf(currentNode.WildcardChild))+wildcard)
 	}
 	// Check if a matching wildcard was found in a parent node
 	if foundWildcardNode != nil {
-		return buildLookupNodeResult(true, foundWildcardNode, params, urlPath)
+		return buildLookupNodeResult(
+			true, foundWildcardNode, wildcardParams, wildcardURLPath)
 	}
 
 	// No match found, return the node that was found with noMatch
 	return buildLookupNodeResult(false, currentNode, params, urlPath)
+}
+
+func urlPartOf[T any](node *Node[T]) urlPart {
+	return urlPart{IsPartOfHost: node.IsPartOfHost}
+}
+
+func copyParams(params map[string]string) map[string]string {
+	if params == nil {
+		return nil
+	}
+	paramsCopy := make(map[string]string, len(params))
+	for name, value := range params {
+		paramsCopy[name] = value
+	}
+	return paramsCopy
 }
 
 func getDelimiter(urlPart urlPart) string {
